@@ -79,3 +79,66 @@ Proof.
   destruct (owners o =? 0); [discriminate|]. injection H as <- <- <- <- <- _. auto.
 Qed.
 Print Assumptions C16_async_counts_partial.
+
+(* ---------------- guards held across calls (AsyncGuard.v) ----------------
+   Every call of the async API is a future that acquires the tokio RwLock (permit semaphore),
+   performs the operation-granularity step of Obs.v and releases; next()/next_ref() acquire twice
+   (poll_update, then next_ref_now).  Reachable = any sequence of events from a_init: new calls,
+   polls of any future in any order (spurious polls included), guards dropped, sets through a held
+   write guard. *)
+From EB Require Import AsyncGuard AsyncGuardFacts.
+
+(* every completed call is a call of the default flavour's specification (ObsSpec.sstep, the one
+   C01-C03 are proved against), linearised at the moment its future completes; events that complete
+   nothing leave the abstract state alone *)
+Theorem C16_guarded_refines_spec :
+  forall (V : Type) (veq heq : V -> V -> bool) (vdefault : V) s e s' done w,
+    areach veq heq vdefault s -> a_step veq heq vdefault true s e = (s', done, w) ->
+    match done with
+    | Some (c, r) =>
+        match sync_op c with
+        | Some x => sstep veq heq vdefault (abs s) x = Some (abs s', conv c r)
+        | None => abs s' = abs s
+        end
+    | None => abs s' = abs s
+    end.
+Proof. exact @aguard_refines_spec. Qed.
+Print Assumptions C16_guarded_refines_spec.
+
+(* the executor misses nobody: a future that is runnable after an event was runnable before or is in
+   the event's woken list *)
+Theorem C16_guarded_executor_complete :
+  forall (V : Type) (veq heq : V -> V -> bool) (vdefault : V) s e s' done w,
+    areach veq heq vdefault s -> a_step veq heq vdefault true s e = (s', done, w) ->
+    forall id f', nth_error (a_futs s') id = Some f' -> runnable_phase (f_phase f') = true ->
+      In id w \/ (exists f, nth_error (a_futs s) id = Some f /\ runnable_phase (f_phase f) = true).
+Proof. exact @aguard_woken_complete. Qed.
+Print Assumptions C16_guarded_executor_complete.
+
+(* no lost wake-up: when the executor has nothing left to poll and the caller holds no guard, the lock
+   is free, nobody is queued for it (in particular: a writer that waited for the lock was woken when
+   it was released, a subscriber polled while a write guard was held became ready after the guard
+   was dropped), and every unfinished future is a subscriber call whose waker is registered and
+   whose subscriber has seen the current version *)
+Theorem C16_guarded_no_lost_wakeup :
+  forall (V : Type) (veq heq : V -> V -> bool) (vdefault : V) s,
+    areach veq heq vdefault s -> quiescent s = true ->
+    s_queue (a_sem s) = [] /\ s_free (a_sem s) = maxp /\
+    forall id f, nth_error (a_futs s) id = Some f ->
+      f_phase f = PhDone \/
+      (f_phase f = PhNotify /\ In id (wakers (a_obs s)) /\
+       exists k, call_sub (f_call f) = Some k /\
+                 nth_error (subs (a_obs s)) k = Some (Some (ver (a_obs s)))).
+Proof. exact @aguard_quiescent_no_lost_wakeup. Qed.
+Print Assumptions C16_guarded_no_lost_wakeup.
+
+(* why next_ref_now has to re-read the version under its second lock: without it the refinement fails
+   on a concrete history (this variant is one of the seeded changes, seeded/C16) *)
+Theorem C16_guarded_next_ref_must_reread_version :
+  exists (es : list (aev (V:=nat))) e s s' c r w x,
+    s = a_run Nat.eqb Nat.eqb 0 false (a_init 0 1) es /\
+    a_step Nat.eqb Nat.eqb 0 false s e = (s', Some (c, r), w) /\
+    sync_op c = Some x /\
+    sstep Nat.eqb Nat.eqb 0 (abs s) x <> Some (abs s', conv c r).
+Proof. exact aguard_unfixed_refuted. Qed.
+Print Assumptions C16_guarded_next_ref_must_reread_version.
